@@ -1,3 +1,4 @@
+import AcqVerif.Props.C01
 import AcqVerif.Props.C02
 /-!
 # What a user of the channel may rely on, one lemma per operation
